@@ -781,7 +781,7 @@ pub fn log_to_builder<P: AsRef<Path>, B: Builder>(
 ) -> Result<Option<B::Sealed>, SError> {
     let mut log_iter = LogIterator::new(log_options, log_path)?;
     let mut kvrs = Vec::new();
-    while let Some(kvr) = log_iter.next().unwrap() {
+    while let Some(kvr) = log_iter.next()? {
         kvrs.push(KeyValuePair::from(kvr));
     }
     fn sort_key(lhs: &KeyValuePair, rhs: &KeyValuePair) -> Ordering {
@@ -813,7 +813,7 @@ pub fn log_to_setsum<P: AsRef<Path>>(
 ) -> Result<Setsum, SError> {
     let mut log_iter = LogIterator::new(log_options, log_path)?;
     let mut acc = Setsum::default();
-    while let Some(kvr) = log_iter.next().unwrap() {
+    while let Some(kvr) = log_iter.next()? {
         if let Some(value) = kvr.value.as_ref() {
             acc.put(kvr.key, kvr.timestamp, value);
         } else {
